@@ -114,7 +114,16 @@ func c18(p *Prog, r *Report) {
 				}
 				origDst := func(it ReadItem, d ssa.Value) ssa.Value {
 					if it.Orig != nil && len(it.Orig.Common().Args) > 1 {
-						return it.Orig.Common().Args[1] // the read inside the helper
+						in := it.Orig.Common().Args[1] // the read inside the helper
+						if prm, ok := in.(*ssa.Parameter); ok && prm.Parent() != nil && it.Call != nil {
+							// the helper passes its own parameter on: the caller's argument decides
+							for i, q := range prm.Parent().Params {
+								if q == prm && i < len(it.Call.Common().Args) {
+									return it.Call.Common().Args[i]
+								}
+							}
+						}
+						return in
 					}
 					return d
 				}
